@@ -134,6 +134,7 @@ func HarnessC11ServerStream() {
 	proto := nondetChoice("proto", 3)
 	sent := nondetChoice("sent", 2)
 	fail := nondetBool("fail")
+	sameKey := fail && nondetBool("errorMetaSharesTrailerKey")
 	m := c11Symbolic()
 	var seenReq []string
 	handler := NewServerStreamHandler("/pkg.Svc/Method", func(ctx context.Context, req *Request[[]byte], s *ServerStream[[]byte]) error {
@@ -146,7 +147,12 @@ func HarnessC11ServerStream() {
 			}
 		}
 		if fail {
-			return NewError(CodeAborted, errors.New("no"))
+			e := NewError(CodeAborted, errors.New("no"))
+			if sameKey {
+				// error metadata under the very key the handler also used for a trailer
+				e.Meta().Add(m.tk, "meta")
+			}
+			return e
 		}
 		return nil
 	}, stackHandlerOptions()...)
@@ -170,7 +176,13 @@ func HarnessC11ServerStream() {
 	case fail:
 		check(serr != nil, "the call fails")
 		if ce, ok := asError(serr); ok {
-			m.checkUnion(ce.Meta(), "error metadata")
+			if sameKey {
+				vals := ce.Meta().Values(m.tk)
+				check(containsStr(vals, m.tv) && containsStr(vals, "meta") && len(vals) == 2, "a trailer and error metadata under the same key both reach the client")
+				check(sameValues(ce.Meta().Values(m.hk), m.hv1, m.hv2), "error metadata: header values are all present, in order")
+			} else {
+				m.checkUnion(ce.Meta(), "error metadata")
+			}
 		}
 	case sent >= 1:
 		check(serr == nil, "the call succeeds")
